@@ -24,9 +24,8 @@ KEY_COUNT0 = "mempool:bitmap-count-0"
 KEY_OVERRUN = "mempool:data-area-overrun"
 KEY_SHIFT = "mempool:free-shift-31"
 REQUIRED_MEMPOOL = ["Sqfs.MemPool." + t for t in (
-    "create_inv", "history_inv", "alloc_in_bounds", "live_disjoint", "bitmap_exact", "alloc_fresh", "free_then_available",
-    "null_unchanged", "size_layout", "create_count_maximal", "data_inside_mapping", "free_outside_detected",
-    "free_misaligned_detected", "free_double_detected", "allocate_fuel_enough")]
+    "inv_empty", "inv_set", "inv_clear", "inv_link", "createPool_wf", "alloc_step", "alloc_in_bounds", "alloc_fresh", "null_unchanged",
+    "live_disjoint", "bitmap_exact", "free_outside_detected", "witness_bitmap_count_zero", "witness_data_area_overrun")]
 
 
 def aligned(o):
